@@ -594,6 +594,31 @@ def conf_updates(impl_negotiated):
     return out, skipped
 
 
+def with_repeated_tunnel_subtlv(body):
+    """an UPDATE body whose TUNNEL_ENCAP (23) attribute holds one tunnel TLV: the same with an unknown sub-TLV (type 100,
+    one octet) appended twice -> new body | None"""
+    wl = int.from_bytes(body[0:2], 'big')
+    al = int.from_bytes(body[2 + wl:4 + wl], 'big')
+    start = 4 + wl
+    attrs, out, i, done = body[start:start + al], b'', 0, False
+    while i < len(attrs):
+        flag, code = attrs[i], attrs[i + 1]
+        if flag & 0x10:
+            ln, hd = int.from_bytes(attrs[i + 2:i + 4], 'big'), 4
+        else:
+            ln, hd = attrs[i + 2], 3
+        val = attrs[i + hd:i + hd + ln]
+        if code == 23 and len(val) >= 4 and int.from_bytes(val[2:4], 'big') == len(val) - 4 and not done:
+            sub = val[4:] + bytes([100, 1, 0xAA, 100, 1, 0xBB])
+            val = val[:2] + len(sub).to_bytes(2, 'big') + sub
+            done = True
+        out += attr(flag & ~0x10, code, val)
+        i += hd + ln
+    if not done:
+        return None
+    return body[:2 + wl] + len(out).to_bytes(2, 'big') + out + body[start + al:]
+
+
 def mutate_body(rng, body):
     b = bytearray(body)
     k = rng.choice(['flip', 'flip', 'byte', 'byte', 'insert', 'delete', 'swap'])
@@ -627,7 +652,7 @@ class Judge:
         self.seen_sigs = set()
 
     def fail(self, sig, what, case):
-        sig = sig.replace('mutant-of-', '')
+        sig = sig.replace('mutant-of-', '').replace(':json6:', ':json:').replace(':json4:', ':json:').replace(':text6:', ':text:').replace(':text4:', ':text:')
         self.fail_counts[sig] += 1
         if sig in self.seen_sigs:
             return
@@ -1008,6 +1033,22 @@ def check(tier, seed):
             outcomes[f'{kind.split(":")[0]}:{oc[0]}'] += 1
             if evs:
                 note_update(evs)
+            for ev in evs:
+                judge.judge(ev)
+        n_rep = 0
+        for kind, nb, neg_in, body in confs:
+            if 'announce' not in kind:
+                continue
+            try:
+                rep = with_repeated_tunnel_subtlv(body)
+            except Exception:
+                rep = None
+            if rep is None or n_rep >= 6:
+                continue
+            n_rep += 1
+            impl.neighbors['_conf'] = (nb, neg_in)
+            evs, oc = message_events(impl, '_conf', 2, rep, 'update-tunnel-encap-repeated-subtlv', {'neighbor': 'from ' + kind.split(':', 1)[1]})
+            outcomes[f'update-tunnel-encap-repeated-subtlv:{oc[0]}'] += 1
             for ev in evs:
                 judge.judge(ev)
         n_mut = (40 if thorough else 6)
